@@ -33,14 +33,6 @@ Proof.
   - reflexivity.
 Qed.
 
-Lemma no_extras_inv2 cst nv sv ai mni mxi uq mnp mxp allo anyo oneo no dflt title :
-  no_extras cst nv sv ai mni mxi uq mnp mxp allo anyo oneo no dflt title = true ->
-  cst = None /\ sv = strv_none.
-Proof.
-  unfold no_extras. intro H. repeat (apply andb_true_iff in H; destruct H as [H ?]).
-  destruct cst; [discriminate|]. destruct sv as [[|] [|] [|]]; try discriminate. split; reflexivity.
-Qed.
-
 Lemma find_wire_x k l p :
   NoDup (wire_names l) -> In p l -> wire_name p = Some k -> Exact.find_wire k l = Some p.
 Proof.
@@ -68,14 +60,10 @@ Qed.
 Lemma in_combine_fst {X Y} (l : list X) (l' : list Y) a b : In (a, b) (combine l l') -> In a l.
 Proof. apply in_combine_l. Qed.
 
-Lemma kot_enum_none fmt enum ik items props req ap tt k :
-  kind_of_type fmt enum ik items props req ap tt = Some k ->
-  match k with KEnum _ => True | _ => enum = None end.
+Lemma len_plain_arity mni mxi : len_plain mni mxi = true -> arity_of mni mxi = None.
 Proof.
-  destruct enum as [es|]; [|intros _; destruct k; trivial].
-  unfold kind_of_type. destruct tt; cbn [is_none]; destruct (is_none fmt); cbn [andb]; try discriminate.
-  destruct (no_array ik items && no_object props req ap); [|discriminate].
-  destruct (jstrs es) as [[|x xs]|]; intro H; try discriminate. injection H as <-. exact I.
+  unfold len_plain, arity_of. destruct mni as [a|], mxi as [b|]; try reflexivity.
+  intro H. apply negb_true_iff in H. rewrite H. reflexivity.
 Qed.
 
 Section ExactMain.
@@ -105,9 +93,16 @@ Section ExactMain.
 
     Lemma gp_leaf ft t d :
       get_det T t = Some d ->
-      match d with DOption _ | DBox _ | DNewtype _ _ _ _ => False | _ => True end ->
+      match d with
+      | DOption _ | DBox _ => False
+      | DNewtype _ _ _ c => match c with CString _ _ _ => True | _ => False end
+      | _ => True
+      end ->
       GP false false (S ft) t = leaf_x re D T ex ty enum cst sv ik items mni mxi props req ap no false false d.
-    Proof. intros Hd Hl. cbn [go_plain]. rewrite Hd. destruct d; try contradiction; reflexivity. Qed.
+    Proof.
+      intros Hd Hl. cbn [go_plain]. rewrite Hd. destruct d; try contradiction; try reflexivity.
+      destruct c; try contradiction. reflexivity.
+    Qed.
 
     Lemma gp_option ft t i :
       get_det T t = Some (DOption i) ->
@@ -142,8 +137,7 @@ Section ExactMain.
   Proof.
     destruct s as [b|ty fmt enum cst nv sv ik items ai mni mxi uq props req ap mnp mxp allo anyo oneo no ref dflt title];
       [discriminate|].
-    intro Hf. destruct (frag_obj_inv _ _ _ _ _ _ _ _ _ _ _ _ _ _ _ _ _ _ _ _ _ _ _ _ _ _ Hf)
-      as (nl & k & _ & _ & _ & -> & -> & -> & _).
+    intro Hf. apply frag_obj_inv in Hf. destruct Hf as (nl & k & _ & _ & -> & -> & -> & _).
     reflexivity.
   Qed.
 
@@ -156,19 +150,20 @@ Section ExactMain.
       [discriminate|].
     intros Hf Hs Hn. cbn [shape] in Hs.
     destruct (classify _ _ _ _ _ _ _ _ _ _ _ _ _ _ _ _ _ _ _ _ _ _ _ _) as [[nl k]|] eqn:Hcl; [|contradiction].
-    destruct (classify_cases _ _ _ _ _ _ _ _ _ _ _ _ _ _ _ _ _ _ _ _ _ _ _ _ _ _ Hcl)
-      as [(l & tt & -> & -> & Hsp & Hk)|(-> & -> & Hrk)].
+    pose proof Hcl as Hcases. apply classify_cases in Hcases.
+    destruct Hcases as [(l & tt & -> & -> & Hsp & Hk)|(-> & -> & _ & _ & _ & _ & _ & _ & _ & _ & _ & _ & _ & Hrk)].
     - destruct nl.
       + exfalso. cbn [nullable] in Hn.
         destruct (split_type_cases l true tt Hsp) as [[H _]|(_ & _ & [->| ->])]; [discriminate| |].
         * cbn [existsb itype_eqb] in Hn. destruct tt; discriminate Hn.
         * discriminate Hn.
-      + pose proof (kind_of_type_inv _ _ _ _ _ _ _ _ _ Hk) as Hinv.
+      + pose proof Hk as Hinv. apply kind_of_type_inv in Hinv. destruct Hinv as (_ & _ & _ & _ & _ & _ & _ & Hinv).
         destruct k; try contradiction; cbn [kshape] in Hs.
         * unfold has in Hs. rewrite Hs. reflexivity.
         * unfold has in Hs. rewrite Hs. reflexivity.
         * unfold has in Hs. rewrite Hs. reflexivity.
         * unfold has in Hs. rewrite Hs. reflexivity.
+        * destruct Hs as (n & sid & Hs & _). unfold has in Hs. rewrite Hs. reflexivity.
         * unfold has in Hs. rewrite Hs. reflexivity.
         * destruct Hs as (n & ids & _ & Hs). unfold has in Hs. rewrite Hs. reflexivity.
         * destruct Hs as (n & ps & Hs & _). unfold has in Hs. rewrite Hs. reflexivity.
@@ -263,29 +258,30 @@ Section ExactMain.
     - intros ty fmt enum cst nv sv ik items ai mni mxi uq props req ap mnp mxp allo anyo oneo no ref dflt title
              IHitems _ IHprops IHap _ _ _ _.
       intros Hf Hne t Hs ft.
-      destruct (frag_obj_inv _ _ _ _ _ _ _ _ _ _ _ _ _ _ _ _ _ _ _ _ _ _ _ _ _ _ Hf)
-        as (nl & k & Hcl & -> & -> & -> & -> & -> & -> & ->).
-      pose proof (classify_cases _ _ _ _ _ _ _ _ _ _ _ _ _ _ _ _ _ _ _ _ _ _ _ _ _ _ Hcl) as Hcases.
-      assert (Hx : cst = None /\ sv = strv_none).
-      { unfold classify in Hcl. destruct (no_extras _ _ _ _ _ _ _ _ _ _ _ _ _ _ _) eqn:Hnx; [|discriminate].
-        exact (no_extras_inv2 _ _ _ _ _ _ _ _ _ _ _ _ _ _ _ Hnx). }
-      destruct Hx as [-> ->].
+      pose proof Hf as Hfi. apply frag_obj_inv in Hfi. destruct Hfi as (nl & k & Hcl & -> & -> & -> & -> & ->).
+      pose proof Hcl as Hcases. apply classify_cases in Hcases.
       cbn [frag] in Hf. rewrite Hcl in Hf. change (frag_kind cls D k items props req ap = true) in Hf.
       cbn [no_nullable_enum] in Hne. rewrite Hcl in Hne.
       cbn [shape] in Hs. rewrite Hcl in Hs.
-      destruct Hcases as [(l & tt & -> & -> & Hsp & Hkt)|(-> & -> & Hrk)].
+      destruct Hcases as [(l & tt & -> & -> & Hsp & Hkt)
+                         |(-> & -> & -> & -> & -> & -> & -> & -> & -> & -> & -> & -> & -> & Hrk)].
       + (* typed node *)
         cbn [Es].
-        pose proof (kind_of_type_inv _ _ _ _ _ _ _ _ _ Hkt) as Hinv.
+        pose proof Hkt as Hinv. apply kind_of_type_inv in Hinv.
+        destruct Hinv as (-> & Hsv & Hlen & Henum & Hikk & Hobj & Hfmt & Hinv).
         assert (Hvt : forall v, type_ok false tt v = true -> valid_type serde_ints (Some l) v = true)
           by (intros v; apply valid_type_split with (nl := nl); exact Hsp).
         (* reduce to the non-null part *)
         assert (Hred : forall t0,
           kshape cls D T (shape cls D T) k items props req ap t0 ->
           (forall d, get_det T t0 = Some d ->
-             match d with DOption _ | DBox _ | DNewtype _ _ _ _ => False | _ => True end /\
-             leaf_x re D T ex (Some l) enum None strv_none ik items None None props req ap None false false d = true) ->
-          forall ft0, go_plain re D T ex (Some l) enum None strv_none ik items None None props req ap None
+             match d with
+             | DOption _ | DBox _ => False
+             | DNewtype _ _ _ c => match c with CString _ _ _ => True | _ => False end
+             | _ => True
+             end /\
+             leaf_x re D T ex (Some l) enum None sv ik items mni mxi props req ap None false false d = true) ->
+          forall ft0, go_plain re D T ex (Some l) enum None sv ik items mni mxi props req ap None
                                false false (S ft0) t0 = true).
         { intros t0 Hk0 Hl ft0.
           destruct (get_det T t0) as [d|] eqn:Hd.
@@ -298,28 +294,39 @@ Section ExactMain.
         assert (Hleaf : forall t0, kshape cls D T (shape cls D T) k items props req ap t0 ->
                   (nl = true -> match k with KEnum _ => False | _ => True end) ->
                   forall d, get_det T t0 = Some d ->
-                  match d with DOption _ | DBox _ | DNewtype _ _ _ _ => False | _ => True end /\
-                  leaf_x re D T ex (Some l) enum None strv_none ik items None None props req ap None false false d = true).
+                  match d with
+             | DOption _ | DBox _ => False
+             | DNewtype _ _ _ c => match c with CString _ _ _ => True | _ => False end
+             | _ => True
+             end /\
+                  leaf_x re D T ex (Some l) enum None sv ik items mni mxi props req ap None false false d = true).
         { intros t0 Hk0 Hnle d Hd.
-          destruct k as [| | | |r|raws|deny| | | |r|]; try contradiction; cbn [kshape] in Hk0.
-          - unfold has in Hk0. rewrite Hk0 in Hd. injection Hd as <-. split; [exact I|]. subst tt.
-            cbn [leaf_x]. unfold common, ty_rep. cbn [forallb]. rewrite (Hvt (JBool true) eq_refl).
-            rewrite (kot_enum_none _ _ _ _ _ _ _ _ _ Hkt). reflexivity.
-          - unfold has in Hk0. rewrite Hk0 in Hd. injection Hd as <-. split; [exact I|]. subst tt.
-            cbn [leaf_x]. unfold common, ty_rep. cbn [forallb]. rewrite (Hvt (JStr []) eq_refl).
-            rewrite (kot_enum_none _ _ _ _ _ _ _ _ _ Hkt). reflexivity.
-          - unfold has in Hk0. rewrite Hk0 in Hd. injection Hd as <-. split; [exact I|]. subst tt.
-            cbn [leaf_x]. unfold common, ty_rep. cbn [forallb]. rewrite (Hvt JNull eq_refl).
-            rewrite (kot_enum_none _ _ _ _ _ _ _ _ _ Hkt). reflexivity.
-          - unfold has in Hk0. rewrite Hk0 in Hd. injection Hd as <-. split; [exact I|]. subst tt.
-            cbn [leaf_x]. unfold common, ty_rep. cbn [forallb]. rewrite (Hvt (JInt 0%Z) eq_refl), (Hvt (JFlt 0%Q) eq_refl).
-            rewrite (kot_enum_none _ _ _ _ _ _ _ _ _ Hkt). reflexivity.
+          destruct k as [| | | |mx mn pat|r|raws|deny| | | |r|]; try contradiction; cbn [kshape] in Hk0;
+            cbn beta iota in Hsv, Hlen, Henum, Hikk, Hobj.
+          - unfold has in Hk0. rewrite Hk0 in Hd. injection Hd as <-. split; [exact I|]. subst tt enum sv.
+            cbn [leaf_x]. unfold common, ty_rep. cbn [forallb]. rewrite (Hvt (JBool true) eq_refl). reflexivity.
+          - unfold has in Hk0. rewrite Hk0 in Hd. injection Hd as <-. split; [exact I|]. subst tt enum sv.
+            cbn [leaf_x]. unfold common, ty_rep. cbn [forallb]. rewrite (Hvt (JStr []) eq_refl). reflexivity.
+          - unfold has in Hk0. rewrite Hk0 in Hd. injection Hd as <-. split; [exact I|]. subst tt enum sv.
+            cbn [leaf_x]. unfold common, ty_rep. cbn [forallb]. rewrite (Hvt JNull eq_refl). reflexivity.
+          - unfold has in Hk0. rewrite Hk0 in Hd. injection Hd as <-. split; [exact I|]. subst tt enum sv.
+            cbn [leaf_x]. unfold common, ty_rep. cbn [forallb].
+            rewrite (Hvt (JInt 0%Z) eq_refl), (Hvt (JFlt 0%Q) eq_refl). reflexivity.
+          - (* KStrC *)
+            destruct Hk0 as (n & sid & Hk0 & _). unfold has in Hk0. rewrite Hk0 in Hd. injection Hd as <-.
+            split; [exact I|]. subst tt enum. destruct Hsv as [-> _].
+            cbn [leaf_x s_max_length s_min_length s_pattern]. unfold common, ty_rep. cbn [forallb].
+            rewrite (Hvt (JStr []) eq_refl).
+            assert (H1 : opt_imp_N mx mx = true) by (destruct mx; cbn; [apply N.eqb_refl|reflexivity]).
+            assert (H2 : opt_imp_N mn mn = true) by (destruct mn; cbn; [apply N.eqb_refl|reflexivity]).
+            assert (H3 : opt_imp_ustr pat pat = true) by (destruct pat; cbn; [apply ustr_eqb_refl|reflexivity]).
+            rewrite H1, H2, H3. reflexivity.
           - unfold has in Hk0. rewrite Hk0 in Hd. injection Hd as <-. split; [exact I|]. destruct Hinv as [-> _].
-            cbn [leaf_x]. unfold common, ty_rep. cbn [forallb]. rewrite (Hvt (JInt 0%Z) eq_refl).
-            rewrite (kot_enum_none _ _ _ _ _ _ _ _ _ Hkt). reflexivity.
+            subst enum sv.
+            cbn [leaf_x]. unfold common, ty_rep. cbn [forallb]. rewrite (Hvt (JInt 0%Z) eq_refl). reflexivity.
           - (* KEnum *)
             destruct Hk0 as (n & ids & Hv & Hk0). unfold has in Hk0. rewrite Hk0 in Hd. injection Hd as <-.
-            split; [exact I|]. destruct Hinv as [-> (es & -> & Hjs)].
+            split; [exact I|]. destruct Hinv as [-> (es & -> & Hjs)]. subst sv.
             cbn [leaf_x]. unfold ty_rep. cbn [forallb]. rewrite (Hvt (JStr []) eq_refl).
             assert (Hall : all_simple (mk_variants raws ids) = true).
             { unfold all_simple, mk_variants. apply forallb_forall. intros v Hvin.
@@ -336,32 +343,19 @@ Section ExactMain.
           - (* KStruct *)
             destruct Hk0 as (n & ps & Hk0 & Hndw & Hndn & HM & Hback).
             unfold has in Hk0. rewrite Hk0 in Hd. injection Hd as <-. split; [exact I|]. destruct Hinv as [-> Hap].
+            destruct Hikk as [-> ->]. subst enum sv.
             cbn [frag_kind] in Hf. apply andb_true_iff in Hf. destruct Hf as [Hf Hfp].
             apply andb_true_iff in Hf. destruct Hf as [Hf _]. apply andb_true_iff in Hf. destruct Hf as [Hks Hreq].
-            cbn [leaf_x]. unfold common.
-            assert (Hen : enum = None).
-            { exact (kot_enum_none _ _ _ _ _ _ _ _ _ Hkt). }
-            assert (Hik : ik = ItemsAbsent).
-            { unfold kind_of_type in Hkt. destruct (is_none fmt && is_none enum && no_array ik items) eqn:Hc0; [|discriminate].
-              apply andb_true_iff in Hc0. destruct Hc0 as [_ Hc0]. unfold no_array in Hc0.
-              apply andb_true_iff in Hc0. destruct Hc0 as [Hc0 _]. destruct ik; try discriminate. reflexivity. }
-            rewrite Hen, Hik. cbn [is_none deny_of orb andb no_items].
+            cbn [leaf_x]. unfold common. cbn [is_none deny_of orb andb no_items].
             apply struct_x_ok; try assumption.
             + apply Hvt. reflexivity.
             + apply keys_sorted_NoDup. exact Hks.
             + destruct nl; exact Hne.
           - (* KMap *)
             destruct Hk0 as (kid & vid & Hk0 & Hkid & Hval).
-            unfold has in Hk0. rewrite Hk0 in Hd. injection Hd as <-. split; [exact I|]. destruct Hinv as [-> ->].
-            assert (Hmap : enum = None /\ req = [] /\ is_closed ap = false).
-            { unfold kind_of_type in Hkt. destruct (is_none fmt && is_none enum && no_array ik items) eqn:Hc0; [|discriminate].
-              apply andb_true_iff in Hc0. destruct Hc0 as [Hc0 _]. apply andb_true_iff in Hc0. destruct Hc0 as [_ Hc0].
-              cbn [is_nil] in Hkt.
-              destruct (is_nil req && negb match ap with Some (SBool false) => true | _ => false end) eqn:Hc1.
-              - apply andb_true_iff in Hc1. destruct Hc1 as [Hr Ha]. apply negb_true_iff in Ha.
-                destruct enum; [discriminate|]. destruct req; [|discriminate]. repeat split. exact Ha.
-              - cbn [andb] in Hkt. rewrite Hc1 in Hkt. destruct (ap_simple ap); discriminate Hkt. }
-            destruct Hmap as (-> & -> & Hcl0).
+            unfold has in Hk0. rewrite Hk0 in Hd. injection Hd as <-. split; [exact I|].
+            destruct Hinv as (-> & -> & -> & Hncl). subst enum sv.
+            assert (Hcl0 : is_closed ap = false) by (destruct ap as [[[|]|]|]; try reflexivity; contradiction).
             cbn [leaf_x]. unfold common, ty_rep, no_obj_claims. cbn [forallb req_enf filter is_none deny_of orb andb].
             rewrite (Hvt (JObj []) eq_refl), Hcl0. cbn [andb negb].
             destruct ap as [[b|aty afmt aenum acst anv asv aik aitems aai amni amxi auq aprops areq aap amnp amxp aallo aanyo aoneo ano aref adflt atitle]|];
@@ -371,30 +365,24 @@ Section ExactMain.
           - (* KVec *)
             destruct Hk0 as (i & Hk0 & Hit).
             unfold has in Hk0. rewrite Hk0 in Hd. injection Hd as <-. split; [exact I|].
-            destruct Hinv as (-> & -> & it & ->).
-            assert (Hen : enum = None).
-            { exact (kot_enum_none _ _ _ _ _ _ _ _ _ Hkt). }
-            rewrite Hen.
-            cbn [leaf_x]. unfold common, ty_rep. cbn [forallb is_none deny_of orb andb arity_of elem_x].
-            rewrite (Hvt (JArr []) eq_refl). cbn [andb].
+            destruct Hinv as (-> & -> & it & ->). subst enum sv.
+            cbn [leaf_x]. unfold common, ty_rep. cbn [forallb is_none deny_of orb andb elem_x].
+            rewrite (Hvt (JArr []) eq_refl), (len_plain_arity _ _ Hlen). cbn [andb is_none].
             cbn [frag_kind forallb] in Hf. rewrite andb_true_r in Hf.
             apply (E_exact _ _ (Forall_inv IHitems) Hf); [|exact Hit].
             destruct nl; cbn [forallb] in Hne; rewrite andb_true_r in Hne; exact Hne.
           - (* KVecAny *)
             destruct Hk0 as (i & Hk0 & _).
             unfold has in Hk0. rewrite Hk0 in Hd. injection Hd as <-. split; [exact I|].
-            destruct Hinv as (-> & ->).
-            assert (Hen : enum = None).
-            { exact (kot_enum_none _ _ _ _ _ _ _ _ _ Hkt). }
-            rewrite Hen.
-            cbn [leaf_x]. unfold common, ty_rep. cbn [forallb is_none deny_of orb andb arity_of elem_x].
-            rewrite (Hvt (JArr []) eq_refl). reflexivity. }
+            destruct Hinv as (-> & -> & ->). subst enum sv.
+            cbn [leaf_x]. unfold common, ty_rep. cbn [forallb is_none deny_of orb andb elem_x].
+            rewrite (Hvt (JArr []) eq_refl), (len_plain_arity _ _ Hlen). reflexivity. }
         destruct nl.
         * destruct Hs as (i & Ht & Hki). unfold has in Ht.
           rewrite (gp_option _ _ _ _ _ _ _ _ _ _ _ _ _ _ _ Ht).
           rewrite (valid_type_null l tt Hsp).
           assert (Hen : enum = None).
-          { pose proof (kot_enum_none _ _ _ _ _ _ _ _ _ Hkt) as Hke. destruct k; try exact Hke. discriminate Hne. }
+          { destruct k; try exact Henum. discriminate Hne. }
           rewrite Hen. cbn [valid_enum valid_const opt_all deny_ok deny_of andb].
           rewrite Hen in Hleaf, Hred.
           apply (Hred i Hki). intros d Hd. apply (Hleaf i Hki); [|exact Hd].
@@ -403,13 +391,7 @@ Section ExactMain.
       + (* reference / anything *)
         destruct Hrk as [(r & -> & ->)|(-> & ->)]; cbn [kshape] in Hs; cbn [Es].
         * destruct Hs as (Hri & _). apply refx_here. apply mem_pair_x_index. exact Hri.
-        * assert (Hemp : fmt = None /\ enum = None /\ ik = ItemsAbsent /\ props = [] /\ req = [] /\ ap = None).
-          { unfold classify in Hcl. destruct (negb _); [discriminate|].
-            destruct (is_none fmt && is_none enum && no_array ik items && no_object props req ap) eqn:Hc0; [|discriminate].
-            unfold no_array, no_object in Hc0. repeat (apply andb_true_iff in Hc0; destruct Hc0 as [Hc0 ?]).
-            destruct fmt, enum, ik, props, req, ap; try discriminate. repeat split. }
-          destruct Hemp as (-> & -> & -> & -> & -> & ->).
-          unfold has in Hs. rewrite (gp_leaf _ _ _ _ _ _ _ _ _ _ _ _ _ _ _ Hs I). reflexivity.
+        * unfold has in Hs. rewrite (gp_leaf _ _ _ _ _ _ _ _ _ _ _ _ _ _ _ Hs I). reflexivity.
   Qed.
 
   Lemma Es_newtype s ft t n dv i :
